@@ -61,10 +61,23 @@ Record tree := mkTree {
   indexes : option nat;
   data    : option nat;
   rsz     : N;
-  elems   : list (N * option (nat * N))
+  elems   : list (N * option (nat * N));
+  (* the cached end iterators cached_end / cached_const_end (CO_Tree_defs.hh):
+     = iterator( *this, reserved_size + 1), i.e. the address
+     &indexes[reserved_size + 1]; recorded as (block of the indexes array they
+     were computed from (None = nullptr), reserved_size they were computed with).
+     They are re-established only by refresh_cached_iterators(). *)
+  cend    : option nat * N
 }.
 
-Definition empty_tree : tree := mkTree None None 0 [].
+Definition empty_tree : tree := mkTree None None 0 [] (None, 0).
+
+(* refresh_cached_iterators()   CO_Tree_inlines.hh:342 *)
+Definition refresh (t : tree) : tree :=
+  mkTree (indexes t) (data t) (rsz t) (elems t) (indexes t, rsz t).
+
+(* the five fields reset at the top of init(); the cached iterators are NOT *)
+Definition reset_tree (t : tree) : tree := mkTree None None 0 [] (cend t).
 
 Definition opt_blk (l : layer) (sz : N) (ob : option nat) : list blk :=
   match ob with Some b => [(b, (l, sz))] | None => [] end.
@@ -87,14 +100,18 @@ Definition owned_tree (t : tree) : list blk :=
 Definition tree_inv (t : tree) : Prop :=
   (rsz t = 0 -> indexes t = None /\ data t = None /\ elems t = [])
   /\ (rsz t <> 0 -> indexes t <> None /\ data t <> None)
-  /\ (exists d, rsz t + 1 = 2 ^ d).
+  /\ (exists d, rsz t + 1 = 2 ^ d)
+  (* the last two tests of structure_OK(): cached_end / cached_const_end
+     == iterator( *this, reserved_size + 1) *)
+  /\ cend t = (indexes t, rsz t).
 
 Lemma tree_inv_empty : tree_inv empty_tree.
 Proof.
-  split; [|split]; cbn.
+  split; [|split; [|split]]; cbn.
   - auto.
   - intros H; contradiction H; reflexivity.
   - exists 0. reflexivity.
+  - reflexivity.
 Qed.
 
 (* reserved size computed by init(n) *)
@@ -125,22 +142,91 @@ Proof.
   replace (N.pred d + 1) with d by lia. symmetry. apply N.pred_sub.
 Qed.
 
-(* ---- (a) CO_Tree::init(n)   CO_Tree.cc:608 ---- *)
-Definition init (n : N) : M tree unit :=
-  put empty_tree ;;;
+(* ---- (a) CO_Tree::init(n)   CO_Tree.cc:608 ----
+   AS WRITTEN ([fixed] = false): the five fields are reset, the allocations are
+   made, and refresh_cached_iterators() is called only at the very end, i.e. NOT
+   on the two exceptional exits.  [fixed] = true is the minimal fix: one more
+   refresh_cached_iterators() right after the five fields are reset. *)
+Definition init_gen (fixed : bool) (n : N) : M tree unit :=
+  modify reset_tree ;;;            (* indexes = data = 0; size_ = reserved_size = max_depth = 0 *)
+  (if fixed then modify refresh else ret tt) ;;;
   (if N.eqb n 0 then ret tt
    else
      let r := rsz_for n in
      (* indexes = new dimension_type[new_reserved_size + 2]; *)
      bi <- alloc LNew (sz_dim * (r + 2)) ;;
-     modify (fun t => mkTree (Some bi) (data t) (rsz t) (elems t)) ;;;
+     modify (fun t => mkTree (Some bi) (data t) (rsz t) (elems t) (cend t)) ;;;
      (* try { data = allocate(r + 1) } catch (...) { delete[] indexes; indexes = 0; throw; } *)
      bd <- try_catch (alloc LNew (sz_coeff * (r + 1)))
              (t <- get ;;
               free_opt LNew (indexes t) ;;;
-              modify (fun t => mkTree None (data t) (rsz t) (elems t)) ;;;
+              modify (fun t => mkTree None (data t) (rsz t) (elems t) (cend t)) ;;;
               throw) ;;
-     modify (fun t => mkTree (indexes t) (Some bd) r (elems t))).
+     modify (fun t => mkTree (indexes t) (Some bd) r (elems t) (cend t))) ;;;
+  modify refresh.                  (* refresh_cached_iterators(); *)
+
+Definition init : N -> M tree unit := init_gen false.
+Definition init_fixed : N -> M tree unit := init_gen true.
+
+Lemma init_gen_sat : forall fixed n s h X,
+  Lg X h ->
+  sat (init_gen fixed n s h)
+      (fun _ s' h' => tree_inv s' /\ elems s' = [] /\
+                      rsz s' = (if N.eqb n 0 then 0 else rsz_for n) /\
+                      Lg (owned_tree s' ++ X) h')
+      (fun s' h' => s' = (if fixed then empty_tree else reset_tree s) /\ Lg X h').
+Proof.
+  intros fixed n s h X HL. unfold init_gen. rewrite bind_modify.
+  set (s0 := if fixed then empty_tree else reset_tree s).
+  assert (E0 : forall B (f : unit -> M tree B),
+             bind (if fixed then modify refresh else ret tt) f (reset_tree s) h = f tt s0 h).
+  { intros B f. unfold s0. destruct fixed; reflexivity. }
+  rewrite E0.
+  assert (Hs0 : indexes s0 = None /\ data s0 = None /\ rsz s0 = 0 /\ elems s0 = []).
+  { unfold s0. destruct fixed; cbn; auto. }
+  destruct Hs0 as [Hi0 [Hd0 [Hr0 He0]]].
+  destruct (N.eqb n 0) eqn:En.
+  - rewrite bind_ret. cbn [modify sat].
+    assert (Er : refresh s0 = empty_tree).
+    { unfold refresh. rewrite Hi0, Hd0, Hr0, He0. reflexivity. }
+    rewrite Er. split; [apply tree_inv_empty|]. auto.
+  - cbv zeta. eapply sat_bind with (E1 := fun s' h' => s' = s0 /\ Lg X h').
+    + eapply sat_bind.
+      * apply alloc_sat; exact HL.
+      * intros s' h' H; exact H.
+      * intros bi s1 h1 [-> HL1]. cbn beta. rewrite bind_modify.
+        eapply sat_bind with (E1 := fun s' h' => s' = s0 /\ Lg X h').
+        -- eapply sat_try.
+           ++ apply alloc_sat; exact HL1.
+           ++ intros a s' h' H; exact H.
+           ++ intros s2 h2 [-> HL2]. rewrite bind_get. cbn [indexes].
+              eapply sat_bind.
+              ** eapply free_opt_sat with (sz := sz_dim * (rsz_for n + 2)); [exact HL2|].
+                 cbn. apply Permutation_refl.
+              ** intros ? ? F; contradiction.
+              ** intros _ s3 h3 [-> HL3]. cbn beta. rewrite bind_modify.
+                 cbn [throw sat data rsz elems cend]. split; [|exact HL3].
+                 rewrite <- Hi0 at 1. rewrite Hd0. rewrite <- Hd0.
+                 destruct s0; reflexivity.
+        -- intros s' h' H; exact H.
+        -- intros bd s2 h2 [-> HL2]. cbn [modify sat indexes data rsz elems cend].
+           instantiate (1 := fun _ s' h' =>
+             (exists bi bd, s' = mkTree (Some bi) (Some bd) (rsz_for n) [] (cend s0)) /\
+             Lg (owned_tree s' ++ X) h').
+           cbn beta. rewrite He0. split; [exists bi, bd; reflexivity|].
+           unfold owned_tree, frame_blks; cbn [indexes data rsz elems opt_blk elems_blks flat_map app].
+           eapply Lg_perm; [exact HL2|]. apply perm_swap.
+    + intros s' h' H; exact H.
+    + cbn beta. intros _ s1 h1 [[bi [bd ->]] HL1]. cbn [modify sat].
+      unfold refresh. cbn [indexes data rsz elems].
+      split; [|split; [reflexivity | split; [reflexivity|]]].
+      * split; [|split; [|split]]; cbn [rsz indexes data elems cend].
+        -- intros H0. exfalso; exact (rsz_for_nonzero n H0).
+        -- intros _. split; discriminate.
+        -- exists (N.log2 n + 1). apply rsz_for_pow.
+        -- reflexivity.
+      * exact HL1.
+Qed.
 
 Lemma init_sat : forall n s h X,
   Lg X h ->
@@ -148,35 +234,17 @@ Lemma init_sat : forall n s h X,
       (fun _ s' h' => tree_inv s' /\ elems s' = [] /\
                       rsz s' = (if N.eqb n 0 then 0 else rsz_for n) /\
                       Lg (owned_tree s' ++ X) h')
+      (fun s' h' => s' = reset_tree s /\ Lg X h').
+Proof. intros. apply (init_gen_sat false); assumption. Qed.
+
+Lemma init_fixed_sat : forall n s h X,
+  Lg X h ->
+  sat (init_fixed n s h)
+      (fun _ s' h' => tree_inv s' /\ elems s' = [] /\
+                      rsz s' = (if N.eqb n 0 then 0 else rsz_for n) /\
+                      Lg (owned_tree s' ++ X) h')
       (fun s' h' => s' = empty_tree /\ Lg X h').
-Proof.
-  intros n s h X HL. unfold init. rewrite bind_put.
-  destruct (N.eqb n 0) eqn:En.
-  - cbn. split; [apply tree_inv_empty|]. auto.
-  - cbv zeta. eapply sat_bind.
-    + apply alloc_sat; exact HL.
-    + intros s' h' H; exact H.
-    + intros bi s1 h1 [-> HL1]. cbn beta. rewrite bind_modify. cbn [data rsz elems empty_tree].
-      eapply sat_bind with (E1 := fun s' h' => s' = empty_tree /\ Lg X h').
-      * eapply sat_try.
-        -- apply alloc_sat; exact HL1.
-        -- intros a s' h' H; exact H.
-        -- intros s2 h2 [-> HL2]. rewrite bind_get. cbn [indexes].
-           eapply sat_bind.
-           ++ eapply free_opt_sat with (sz := sz_dim * (rsz_for n + 2)); [exact HL2|].
-              cbn. apply Permutation_refl.
-           ++ intros ? ? F; contradiction.
-           ++ intros _ s3 h3 [-> HL3]. cbn beta. rewrite bind_modify. cbn. auto.
-      * intros s' h' H; exact H.
-      * intros bd s2 h2 [-> HL2]. cbn [modify sat indexes data rsz elems].
-        split; [|split; [reflexivity | split; [reflexivity|]]].
-        -- split; [|split]; cbn [rsz indexes data elems].
-           ++ intros H0. exfalso; exact (rsz_for_nonzero n H0).
-           ++ intros _. split; discriminate.
-           ++ exists (N.log2 n + 1). apply rsz_for_pow.
-        -- unfold owned_tree, frame_blks; cbn [indexes data rsz elems opt_blk elems_blks flat_map app].
-           eapply Lg_perm; [exact HL2|]. apply perm_swap.
-Qed.
+Proof. intros. apply (init_gen_sat true); assumption. Qed.
 
 (* ---- (b) CO_Tree::destroy()   CO_Tree.cc:650 ----
    for i = 1..reserved_size: if used, destroy data[i]  (ascending position:
@@ -240,7 +308,7 @@ Qed.
 
 (* ---- element copy loop: new(&data[p]) data_type(src)  for each (p, limbs) ---- *)
 Definition add_elem (p : N) (b : nat) (sz : N) (t : tree) : tree :=
-  mkTree (indexes t) (data t) (rsz t) ((p, Some (b, sz)) :: elems t).
+  mkTree (indexes t) (data t) (rsz t) ((p, Some (b, sz)) :: elems t) (cend t).
 
 Fixpoint copy_elems (ps : list (N * N)) : M tree unit :=
   match ps with
@@ -252,14 +320,14 @@ Fixpoint copy_elems (ps : list (N * N)) : M tree unit :=
   end.
 
 Definition frame_eq (s s' : tree) : Prop :=
-  indexes s' = indexes s /\ data s' = data s /\ rsz s' = rsz s.
+  indexes s' = indexes s /\ data s' = data s /\ rsz s' = rsz s /\ cend s' = cend s.
 
 Lemma frame_eq_refl : forall s, frame_eq s s.
 Proof. intros; repeat split. Qed.
 
 Lemma frame_eq_trans : forall a b c, frame_eq a b -> frame_eq b c -> frame_eq a c.
 Proof.
-  intros a b c [A1 [A2 A3]] [B1 [B2 B3]]. repeat split; congruence.
+  intros a b c [A1 [A2 [A3 A4]]] [B1 [B2 [B3 B4]]]. repeat split; congruence.
 Qed.
 
 Lemma copy_elems_sat : forall ps s h X,
@@ -345,7 +413,7 @@ Definition iter_body (src : list N) : M tree unit :=
   if N.eqb n 0 then init 0
   else
     (* reserved_size = ...; (field write, then init(reserved_size)) *)
-    modify (fun t => mkTree (indexes t) (data t) (iter_reserved n) (elems t)) ;;;
+    modify (fun t => mkTree (indexes t) (data t) (iter_reserved n) (elems t) (cend t)) ;;;
     t0 <- get ;;
     init (rsz t0) ;;;
     iter_fill src.
@@ -363,7 +431,7 @@ Definition iter_body_fixed (src : list N) : M tree unit :=
   let n := N.of_nat (length src) in
   if N.eqb n 0 then init 0
   else
-    modify (fun t => mkTree (indexes t) (data t) (iter_reserved n) (elems t)) ;;;
+    modify (fun t => mkTree (indexes t) (data t) (iter_reserved n) (elems t) (cend t)) ;;;
     t0 <- get ;;
     init (rsz t0) ;;;
     try_catch (iter_fill src)
@@ -391,7 +459,7 @@ Proof.
 Qed.
 
 Lemma frame_blks_eq : forall s s', frame_eq s s' -> frame_blks s' = frame_blks s.
-Proof. intros s s' [A [B C]]. unfold frame_blks. rewrite A, B, C. reflexivity. Qed.
+Proof. intros s s' [A [B [C _]]]. unfold frame_blks. rewrite A, B, C. reflexivity. Qed.
 
 Lemma owned_perm : forall t X,
   Permutation (elems_blks (elems t) ++ frame_blks t ++ X) (owned_tree t ++ X).
@@ -403,10 +471,11 @@ Qed.
 Lemma tree_inv_frame : forall s s',
   tree_inv s -> rsz s <> 0 -> frame_eq s s' -> tree_inv s'.
 Proof.
-  intros s s' [I0 [I1 I2]] Hr [A [B C]]. split; [|split].
+  intros s s' [I0 [I1 [I2 I3]]] Hr [A [B [C D]]]. split; [|split; [|split]].
   - intros H. rewrite C in H. contradiction.
   - intros _. rewrite A, B. apply I1. exact Hr.
   - rewrite C. exact I2.
+  - rewrite A, C, D. exact I3.
 Qed.
 
 Lemma iter_reserved_nonzero : forall n, iter_reserved n <> 0.
@@ -431,12 +500,14 @@ Qed.
 
 (* ---------- (a) init : theorem ---------- *)
 
+(* As written: on an exceptional exit the five fields are those of the empty tree
+   but the cached end iterators are STALE (those of the tree before the call). *)
 Theorem cotree_init_unwind_balanced : forall n k h s0,
   wf h ->
   match init n s0 (arm k h) with
   | Ret _ t h' => wf h' /\ ledger_eq (live h') (owned_tree t ++ live h)
                   /\ tree_inv t /\ NoDup (map fst (owned_tree t))
-  | Exn t h' => wf h' /\ ledger_eq (live h') (live h) /\ t = empty_tree
+  | Exn t h' => wf h' /\ ledger_eq (live h') (live h) /\ t = reset_tree s0
   | Bad _ => False
   end.
 Proof.
@@ -445,6 +516,60 @@ Proof.
   destruct (init n s0 (arm k h)) as [a s' h'|s' h'|h']; cbn [sat] in H.
   - destruct H as [I [_ [_ HL]]]. apply Lg_out in HL. tauto.
   - destruct H as [-> [W' P]]. auto.
+  - exact H.
+Qed.
+
+Lemma reset_tree_inv_iff : forall s, tree_inv (reset_tree s) <-> cend s = (None, 0).
+Proof.
+  intros s. split.
+  - intros [_ [_ [_ H]]]. exact H.
+  - intros H. unfold reset_tree. rewrite H. apply tree_inv_empty.
+Qed.
+
+(* "If this throws, *this will be the empty tree" (comment in init): FALSE for
+   the cached iterators *)
+Definition cotree_init_usable_after_full : Prop :=
+  forall n k h s0,
+  wf h ->
+  match init n s0 (arm k h) with
+  | Exn t _ => tree_inv t
+  | _ => True
+  end.
+
+(* witness: the fields of a destroyed tree of reserved size 1 (as operator=
+   leaves them before calling init), first request fails *)
+Theorem cotree_init_usable_after_refuted :
+  exists n s0 k h, wf h /\ exists t h',
+    init n s0 (arm k h) = Exn t h' /\ ~ tree_inv t.
+Proof.
+  exists 3, (mkTree (Some 0%nat) (Some 1%nat) 1 [] (Some 0%nat, 1)), 1%nat, empty_heap.
+  split; [exact wf_empty|]. eexists _, _. split; [vm_compute; reflexivity|].
+  intros [_ [_ [_ H]]]. cbn in H. discriminate H.
+Qed.
+
+Theorem cotree_init_usable_after_full_refuted : ~ cotree_init_usable_after_full.
+Proof.
+  intro F.
+  specialize (F 3 1%nat empty_heap (mkTree (Some 0%nat) (Some 1%nat) 1 [] (Some 0%nat, 1)) wf_empty).
+  vm_compute in F. destruct F as [_ [_ [_ H]]]. discriminate H.
+Qed.
+
+(* with the minimal fix the receiver is the (valid) empty tree on failure *)
+Theorem cotree_init_fixed_unwind_balanced : forall n k h s0,
+  wf h ->
+  match init_fixed n s0 (arm k h) with
+  | Ret _ t h' => wf h' /\ ledger_eq (live h') (owned_tree t ++ live h)
+                  /\ tree_inv t /\ NoDup (map fst (owned_tree t))
+  | Exn t h' => wf h' /\ ledger_eq (live h') (live h) /\ t = empty_tree /\ tree_inv t
+  | Bad _ => False
+  end.
+Proof.
+  intros n k h s0 W.
+  pose proof (init_fixed_sat n s0 (arm k h) (live h) (Lg_arm k _ _ (Lg_self h W))) as H.
+  destruct (init_fixed n s0 (arm k h)) as [a s' h'|s' h'|h']; cbn [sat] in H.
+  - destruct H as [I [_ [_ HL]]]. apply Lg_out in HL. tauto.
+  - destruct H as [-> [W' P]]. split; [exact W'|]. split; [exact P|].
+    split; [reflexivity | apply tree_inv_empty].
   - exact H.
 Qed.
 
@@ -653,27 +778,30 @@ Qed.
 
 Lemma init_fail1_exact : forall n s h,
   n <> 0 -> fuel h = Some 0%nat ->
-  exists h', init n s h = Exn empty_tree h' /\ live h' = live h.
+  exists h', init n s h = Exn (reset_tree s) h' /\ live h' = live h.
 Proof.
-  intros n s h Hn Hf. unfold init. rewrite bind_put.
+  intros n s h Hn Hf. unfold init, init_gen. rewrite bind_modify. cbv iota. rewrite bind_ret.
   destruct (N.eqb_spec n 0) as [E|E]; [contradiction|]. cbv zeta.
-  erewrite bind_exn_eq by (apply alloc_fail_eq; exact Hf).
+  erewrite bind_exn_eq.
+  2:{ erewrite bind_exn_eq by (apply alloc_fail_eq; exact Hf). reflexivity. }
   eexists. split; reflexivity.
 Qed.
 
 Lemma init_fail2_exact : forall n s h,
   n <> 0 -> wf h -> fuel h = Some 1%nat ->
-  exists h', init n s h = Exn empty_tree h' /\ live h' = live h.
+  exists h', init n s h = Exn (reset_tree s) h' /\ live h' = live h.
 Proof.
-  intros n s h Hn W Hf. unfold init. rewrite bind_put.
+  intros n s h Hn W Hf. unfold init, init_gen. rewrite bind_modify. cbv iota. rewrite bind_ret.
   destruct (N.eqb_spec n 0) as [E|E]; [contradiction|]. cbv zeta.
-  erewrite bind_ret_eq by (apply alloc_ok_eq; rewrite Hf; discriminate).
-  rewrite bind_modify. cbn [data rsz elems empty_tree].
   erewrite bind_exn_eq.
-  2:{ erewrite try_exn_eq by (apply alloc_fail_eq; cbn [fuel]; rewrite Hf; reflexivity).
-      rewrite bind_get. cbn [indexes free_opt].
-      erewrite bind_ret_eq by (apply free_head_eq; apply wf_fresh; exact W).
-      rewrite bind_modify. reflexivity. }
+  2:{ erewrite bind_ret_eq by (apply alloc_ok_eq; rewrite Hf; discriminate).
+      rewrite bind_modify.
+      erewrite bind_exn_eq.
+      2:{ erewrite try_exn_eq by (apply alloc_fail_eq; cbn [fuel]; rewrite Hf; reflexivity).
+          rewrite bind_get. cbn [indexes free_opt].
+          erewrite bind_ret_eq by (apply free_head_eq; apply wf_fresh; exact W).
+          rewrite bind_modify. reflexivity. }
+      reflexivity. }
   eexists. split; reflexivity.
 Qed.
 
@@ -681,21 +809,23 @@ Lemma init_ok_exact : forall n s h,
   n <> 0 ->
   match fuel h with None => True | Some j => (2 <= j)%nat end ->
   exists bi bd h' e1 e2,
-    init n s h = Ret tt (mkTree (Some bi) (Some bd) (rsz_for n) []) h' /\
+    init n s h = Ret tt (mkTree (Some bi) (Some bd) (rsz_for n) [] (Some bi, rsz_for n)) h' /\
     fuel h' = tick (tick (fuel h)) /\
     live h' = e2 :: e1 :: live h /\
     snd e1 = (LNew, sz_dim * (rsz_for n + 2)) /\
     snd e2 = (LNew, sz_coeff * (rsz_for n + 1)).
 Proof.
-  intros n s h Hn Hf. unfold init. rewrite bind_put.
+  intros n s h Hn Hf. unfold init, init_gen. rewrite bind_modify. cbv iota. rewrite bind_ret.
   destruct (N.eqb_spec n 0) as [E|E]; [contradiction|]. cbv zeta.
   erewrite bind_ret_eq.
-  2:{ apply alloc_ok_eq. destruct (fuel h) as [[|j]|]; [lia| |]; discriminate. }
-  rewrite bind_modify. cbn [data rsz elems empty_tree].
-  erewrite bind_ret_eq.
-  2:{ erewrite try_ret_eq; [reflexivity|]. apply alloc_ok_eq. cbn [fuel].
-      destruct (fuel h) as [[|[|j]]|]; cbn [tick]; try lia; discriminate. }
-  cbn [modify indexes elems next live fuel].
+  2:{ erewrite bind_ret_eq.
+      2:{ apply alloc_ok_eq. destruct (fuel h) as [[|j]|]; [lia| |]; discriminate. }
+      rewrite bind_modify.
+      erewrite bind_ret_eq.
+      2:{ erewrite try_ret_eq; [reflexivity|]. apply alloc_ok_eq. cbn [fuel].
+          destruct (fuel h) as [[|[|j]]|]; cbn [tick]; try lia; discriminate. }
+      reflexivity. }
+  cbn [modify refresh reset_tree indexes data rsz elems cend next live fuel].
   eexists _, _, _, _, _. split; [reflexivity|]. cbn [fuel live snd]. auto.
 Qed.
 
@@ -861,9 +991,32 @@ Qed.
 Definition copy_ctor (rszy : N) (used : list (N * N)) : M unit tree :=
   construct empty_tree (init rszy ;;; copy_data_from used).
 
-(* CO_Tree::operator=(const CO_Tree& y)   CO_Tree_inlines.hh:57 *)
-Definition assign (rszy : N) (used : list (N * N)) : M tree unit :=
-  destroy ;;; init rszy ;;; copy_data_from used.
+(* CO_Tree::operator=(const CO_Tree& y)   CO_Tree_inlines.hh:57
+   [fixed] selects init as written / init with the minimal fix (copy_data_from's
+   handler calls init(0), on which both versions agree: init_fixed0_eq). *)
+Definition assign_gen (fixed : bool) (rszy : N) (used : list (N * N)) : M tree unit :=
+  destroy ;;; init_gen fixed rszy ;;; copy_data_from used.
+
+Definition assign : N -> list (N * N) -> M tree unit := assign_gen false.
+Definition assign_fixed : N -> list (N * N) -> M tree unit := assign_gen true.
+
+Lemma init_fixed0_eq : forall s h, init_fixed 0 s h = init 0 s h.
+Proof. reflexivity. Qed.
+
+(* init throws only on its first or second request *)
+Lemma init_exn_fuel : forall n s h s' h',
+  init n s h = Exn s' h' -> fuel h = Some 0%nat \/ fuel h = Some 1%nat.
+Proof.
+  intros n s h s' h' H.
+  destruct (N.eq_dec n 0) as [->|Hn]; [rewrite init0_eq in H; discriminate H|].
+  destruct (fuel h) as [[|[|j]]|] eqn:Ef; auto.
+  - destruct (init_ok_exact n s h Hn) as (bi & bd & h1 & e1 & e2 & E & _).
+    { rewrite Ef. lia. }
+    rewrite E in H. discriminate H.
+  - destruct (init_ok_exact n s h Hn) as (bi & bd & h1 & e1 & e2 & E & _).
+    { rewrite Ef. exact I. }
+    rewrite E in H. discriminate H.
+Qed.
 
 Lemma init_then_copy_sat : forall rszy used s h X,
   (used <> [] -> rszy <> 0) ->
@@ -872,11 +1025,36 @@ Lemma init_then_copy_sat : forall rszy used s h X,
       (fun _ s' h' => tree_inv s' /\ Permutation (map fst (elems s')) (map fst used) /\
                       rsz s' = (if N.eqb rszy 0 then 0 else rsz_for rszy) /\
                       Lg (owned_tree s' ++ X) h')
+      (fun s' h' => (s' = empty_tree \/
+                     (s' = reset_tree s /\ (fuel h = Some 0%nat \/ fuel h = Some 1%nat)))
+                    /\ Lg X h').
+Proof.
+  intros rszy used s h X Hy HL.
+  eapply sat_bind_eq.
+  - apply init_sat; exact HL.
+  - cbn beta. intros s' h' Ei [Es H]. subst s'. split; [|exact H].
+    right. split; [reflexivity|]. eapply init_exn_fuel. exact Ei.
+  - cbn beta. intros u s1 h1 _ [I [He [Hr HL1]]]. rewrite <- Hr.
+    eapply sat_conseq.
+    + apply copy_data_from_sat; try eassumption.
+      intros Hu. rewrite Hr. specialize (Hy Hu).
+      destruct (N.eqb_spec rszy 0) as [E|E]; [contradiction|]. apply rsz_for_nonzero.
+    + cbn beta. intros a s' h' H; exact H.
+    + cbn beta. intros s' h' [-> H]. split; [left; reflexivity | exact H].
+Qed.
+
+Lemma init_fixed_then_copy_sat : forall rszy used s h X,
+  (used <> [] -> rszy <> 0) ->
+  Lg X h ->
+  sat ((init_fixed rszy ;;; copy_data_from used) s h)
+      (fun _ s' h' => tree_inv s' /\ Permutation (map fst (elems s')) (map fst used) /\
+                      rsz s' = (if N.eqb rszy 0 then 0 else rsz_for rszy) /\
+                      Lg (owned_tree s' ++ X) h')
       (fun s' h' => s' = empty_tree /\ Lg X h').
 Proof.
   intros rszy used s h X Hy HL.
   eapply sat_bind.
-  - apply init_sat; exact HL.
+  - apply init_fixed_sat; exact HL.
   - cbn beta. intros s' h' H; exact H.
   - cbn beta. intros _ s1 h1 [I [He [Hr HL1]]]. rewrite <- Hr.
     apply copy_data_from_sat; try assumption.
@@ -915,8 +1093,43 @@ Example cotree_copy_ctor_hyp_sat :
   wf empty_heap /\ ([(2, 1); (1, 3)] <> @nil (N * N) -> 3 <> 0).
 Proof. split; [exact wf_empty | discriminate]. Qed.
 
-(* receiver t owns its blocks in h; X = the rest of the ledger *)
-Theorem cotree_assign_unwind_balanced : forall rszy used t k h X,
+Lemma keeps_fuel_release {St} es t : keeps_fuel (@release St es t).
+Proof.
+  unfold release. apply keeps_fuel_bind; [apply keeps_fuel_free_list|]. intros _.
+  apply keeps_fuel_bind; [apply keeps_fuel_free_opt|]. intros _. apply keeps_fuel_free_opt.
+Qed.
+
+Lemma keeps_fuel_destroy : keeps_fuel destroy.
+Proof.
+  unfold destroy. apply keeps_fuel_bind; [apply keeps_fuel_get|]. intros t.
+  destruct (N.eqb (rsz t) 0); [apply keeps_fuel_ret | apply keeps_fuel_release].
+Qed.
+
+Lemma assign_sat : forall rszy used t h X,
+  tree_inv t -> Lg (owned_tree t ++ X) h -> (used <> [] -> rszy <> 0) ->
+  sat (assign rszy used t h)
+      (fun _ t' h' => tree_inv t' /\ Permutation (map fst (elems t')) (map fst used) /\
+                      rsz t' = (if N.eqb rszy 0 then 0 else rsz_for rszy) /\
+                      Lg (owned_tree t' ++ X) h')
+      (fun t' h' => (t' = empty_tree \/
+                     (t' = reset_tree t /\ (fuel h = Some 0%nat \/ fuel h = Some 1%nat)))
+                    /\ Lg X h').
+Proof.
+  intros rszy used t h X I HL Hy. unfold assign, assign_gen.
+  eapply sat_bind_eq.
+  - apply destroy_sat; [exact I | exact HL].
+  - intros ? ? _ F; contradiction.
+  - cbn beta. intros u s1 h1 Ed [Es HL1]. subst s1.
+    pose proof (keeps_fuel_destroy t h) as Hf. rewrite Ed in Hf. rewrite <- Hf.
+    apply (init_then_copy_sat rszy used t h1 X Hy HL1).
+Qed.
+
+(* receiver t owns its blocks in h; X = the rest of the ledger.
+   AS WRITTEN: the ledger is balanced for every k, but the receiver is a valid
+   tree after a failure only when init did not throw (k = 0 or k >= 3);
+   otherwise it is [reset_tree t]: empty fields, STALE cached end iterators
+   (pointing into the freed indexes array of the old tree). *)
+Theorem cotree_assign_unwind_balanced_partial : forall rszy used t k h X,
   wf h -> tree_inv t -> ledger_eq (live h) (owned_tree t ++ X) ->
   (used <> [] -> rszy <> 0) ->
   match assign rszy used t (arm k h) with
@@ -924,23 +1137,24 @@ Theorem cotree_assign_unwind_balanced : forall rszy used t k h X,
                    /\ tree_inv t' /\ NoDup (map fst (owned_tree t'))
                    /\ Permutation (map fst (elems t')) (map fst used)
                    /\ rsz t' = (if N.eqb rszy 0 then 0 else rsz_for rszy)
-  | Exn t' h' => wf h' /\ ledger_eq (live h') X /\ t' = empty_tree
+  | Exn t' h' => wf h' /\ ledger_eq (live h') X
+                 /\ (t' = empty_tree \/ (t' = reset_tree t /\ (k = 1 \/ k = 2)%nat))
+                 /\ ((k = 0 \/ 3 <= k)%nat -> t' = empty_tree /\ tree_inv t')
   | Bad _ => False
   end.
 Proof.
   intros rszy used t k h X W I P Hy.
-  assert (H : sat (assign rszy used t (arm k h))
-                  (fun _ t' h' => tree_inv t' /\ Permutation (map fst (elems t')) (map fst used) /\
-                                  rsz t' = (if N.eqb rszy 0 then 0 else rsz_for rszy) /\
-                                  Lg (owned_tree t' ++ X) h')
-                  (fun t' h' => t' = empty_tree /\ Lg X h')).
-  { unfold assign. eapply sat_bind.
-    - apply destroy_sat; [exact I|]. apply Lg_arm. split; [exact W | exact P].
-    - intros ? ? F; contradiction.
-    - cbn beta. intros _ s1 h1 [_ HL1]. apply init_then_copy_sat; assumption. }
+  pose proof (assign_sat rszy used t (arm k h) X I (Lg_arm k _ _ (conj W P)) Hy) as H.
   destruct (assign rszy used t (arm k h)) as [a t' h'|t' h'|h']; cbn [sat] in H.
   - destruct H as [I' [Hp [Hr HL]]]. apply Lg_out in HL. tauto.
-  - destruct H as [-> [W' P']]. auto.
+  - destruct H as [D [W' P']]. split; [exact W'|]. split; [exact P'|].
+    assert (D' : t' = empty_tree \/ (t' = reset_tree t /\ (k = 1 \/ k = 2)%nat)).
+    { destruct D as [D|[D F]]; [left; exact D|]. right. split; [exact D|].
+      destruct k as [|[|[|j]]]; cbn [arm fuel] in F; destruct F as [F|F];
+        try discriminate F; auto; inversion F. }
+    split; [exact D'|].
+    intros Hk. destruct D' as [->|[_ Hk']]; [split; [reflexivity | apply tree_inv_empty]|].
+    exfalso. lia.
   - exact H.
 Qed.
 
@@ -951,6 +1165,94 @@ Example cotree_assign_hyp_sat :
 Proof.
   split; [exact wf_empty|]. split; [exact tree_inv_empty|].
   split; [apply Permutation_refl | discriminate].
+Qed.
+
+(* the full statement (ledger AND valid receiver for every k) is FALSE as written *)
+Definition cotree_assign_unwind_balanced_full : Prop :=
+  forall rszy used t k h X,
+  wf h -> tree_inv t -> ledger_eq (live h) (owned_tree t ++ X) ->
+  (used <> [] -> rszy <> 0) ->
+  match assign rszy used t (arm k h) with
+  | Ret _ t' h' => wf h' /\ ledger_eq (live h') (owned_tree t' ++ X) /\ tree_inv t'
+  | Exn t' h' => wf h' /\ ledger_eq (live h') X /\ tree_inv t'
+  | Bad _ => False
+  end.
+
+(* witness: a receiver of reserved size 1 (indexes = block 0, data = block 1),
+   y of reserved size 1 without elements, first request fails *)
+Definition wit_tree : tree := mkTree (Some 0%nat) (Some 1%nat) 1 [] (Some 0%nat, 1).
+Definition wit_heap : heap := mkHeap 2 [(1%nat, (LNew, 32)); (0%nat, (LNew, 24))] None [].
+
+Lemma wit_ok : wf wit_heap /\ tree_inv wit_tree /\
+               ledger_eq (live wit_heap) (owned_tree wit_tree ++ []).
+Proof.
+  split; [|split].
+  - split; cbn.
+    + constructor; [intros [H|[]]; discriminate H|]. constructor; [intros []|constructor].
+    + repeat constructor.
+  - split; [|split; [|split]]; cbn.
+    + intros H; discriminate H.
+    + intros _; split; discriminate.
+    + exists 1. reflexivity.
+    + reflexivity.
+  - cbn. apply perm_swap.
+Qed.
+
+Theorem cotree_assign_usable_after_refuted :
+  exists rszy used t k h X,
+    wf h /\ tree_inv t /\ ledger_eq (live h) (owned_tree t ++ X) /\
+    (used <> [] -> rszy <> 0) /\
+    exists t' h', assign rszy used t (arm k h) = Exn t' h' /\ ~ tree_inv t'.
+Proof.
+  exists 1, [], wit_tree, 1%nat, wit_heap, [].
+  destruct wit_ok as [W [I P]].
+  split; [exact W|]. split; [exact I|]. split; [exact P|]. split; [intros H; contradiction|].
+  eexists _, _. split; [vm_compute; reflexivity|].
+  intros [_ [_ [_ H]]]. cbn in H. discriminate H.
+Qed.
+
+Theorem cotree_assign_unwind_balanced_full_refuted : ~ cotree_assign_unwind_balanced_full.
+Proof.
+  intro F. destruct wit_ok as [W [I P]].
+  specialize (F 1 [] wit_tree 1%nat wit_heap [] W I P (fun H => False_ind _ (H eq_refl))).
+  vm_compute in F. destruct F as [_ [_ [_ [_ [_ H]]]]]. discriminate H.
+Qed.
+
+(* with init_fixed: ledger AND valid (empty) receiver for ALL k *)
+Theorem cotree_assign_fixed_unwind_balanced : forall rszy used t k h X,
+  wf h -> tree_inv t -> ledger_eq (live h) (owned_tree t ++ X) ->
+  (used <> [] -> rszy <> 0) ->
+  match assign_fixed rszy used t (arm k h) with
+  | Ret _ t' h' => wf h' /\ ledger_eq (live h') (owned_tree t' ++ X)
+                   /\ tree_inv t' /\ NoDup (map fst (owned_tree t'))
+                   /\ Permutation (map fst (elems t')) (map fst used)
+                   /\ rsz t' = (if N.eqb rszy 0 then 0 else rsz_for rszy)
+  | Exn t' h' => wf h' /\ ledger_eq (live h') X /\ t' = empty_tree /\ tree_inv t'
+  | Bad _ => False
+  end.
+Proof.
+  intros rszy used t k h X W I P Hy.
+  assert (H : sat (assign_fixed rszy used t (arm k h))
+                  (fun _ t' h' => tree_inv t' /\ Permutation (map fst (elems t')) (map fst used) /\
+                                  rsz t' = (if N.eqb rszy 0 then 0 else rsz_for rszy) /\
+                                  Lg (owned_tree t' ++ X) h')
+                  (fun t' h' => t' = empty_tree /\ Lg X h')).
+  { unfold assign_fixed, assign_gen. eapply sat_bind.
+    - apply destroy_sat; [exact I|]. apply Lg_arm. split; [exact W | exact P].
+    - intros ? ? F; contradiction.
+    - cbn beta. intros _ s1 h1 [_ HL1]. apply init_fixed_then_copy_sat; assumption. }
+  destruct (assign_fixed rszy used t (arm k h)) as [a t' h'|t' h'|h']; cbn [sat] in H.
+  - destruct H as [I' [Hp [Hr HL]]]. apply Lg_out in HL. tauto.
+  - destruct H as [-> [W' P']]. split; [exact W'|]. split; [exact P'|].
+    split; [reflexivity | apply tree_inv_empty].
+  - exact H.
+Qed.
+
+Example cotree_assign_fixed_hyp_sat :
+  wf wit_heap /\ tree_inv wit_tree /\ ledger_eq (live wit_heap) (owned_tree wit_tree ++ []) /\
+  ([(1, 1)] <> @nil (N * N) -> 1 <> 0).
+Proof.
+  destruct wit_ok as [W [I P]]. split; [exact W|]. split; [exact I|]. split; [exact P | discriminate].
 Qed.
 
 (* CO_Tree::rebuild_bigger_tree()   CO_Tree.cc:820 *)
@@ -966,7 +1268,8 @@ Definition rebuild_bigger : M tree unit :=
     free_opt LNew (indexes t) ;;;              (* delete[] indexes *)
     free_opt LNew (data t) ;;;                 (* deallocate(data, reserved_size+1) *)
     put (mkTree (Some ni) (Some nd) nr
-                (map (fun e => (2 * fst e, snd e)) (elems t))).
+                (map (fun e => (2 * fst e, snd e)) (elems t)) (cend t)) ;;;
+    modify refresh.                            (* refresh_cached_iterators() *)
 
 Lemma elems_blks_move : forall es,
   elems_blks (map (fun e : N * option (nat * N) => (2 * fst e, snd e)) es) = elems_blks es.
@@ -977,7 +1280,8 @@ Qed.
 
 Lemma tree_rsz0_empty : forall t, tree_inv t -> rsz t = 0 -> t = empty_tree.
 Proof.
-  intros [i d r e] [I0 _] Hr. cbn in *. destruct (I0 Hr) as [-> [-> ->]]. subst r. reflexivity.
+  intros [i d r e c] [I0 [_ [_ I3]]] Hr. cbn in *. destruct (I0 Hr) as [-> [-> ->]]. subst r c.
+  reflexivity.
 Qed.
 
 Lemma rebuild_bigger_sat : forall s h X,
@@ -998,7 +1302,7 @@ Proof.
       * exact Hr.
       * rewrite He. reflexivity.
     + cbn beta. intros s' h' [-> HL']. split; [reflexivity|]. exact HL'.
-  - cbv zeta. destruct I as [I0 [I1 [d I2]]].
+  - cbv zeta. destruct I as [I0 [I1 [[d I2] I3]]].
     destruct (I1 E) as [Hi Hd].
     destruct (indexes s) as [bi|] eqn:Ei; [|contradiction].
     destruct (data s) as [bd|] eqn:Ed; [|contradiction].
@@ -1038,12 +1342,14 @@ Proof.
               cbn [app]. apply Permutation_sym.
               apply (Permutation_middle [end_; eni] (elems_blks (elems s) ++ X) ebd).
            ++ intros ? ? F; contradiction.
-           ++ cbn beta. intros _ s4 h4 [-> HL4]. cbn [put sat].
+           ++ cbn beta. intros _ s4 h4 [-> HL4]. rewrite bind_put. cbn [modify sat].
+              unfold refresh. cbn [rsz indexes data elems cend].
               split; [|split; [|split]].
-              ** split; [|split]; cbn [rsz indexes data elems].
+              ** split; [|split; [|split]]; cbn [rsz indexes data elems cend].
                  --- intros H0. exfalso. lia.
                  --- intros _. split; discriminate.
                  --- exists (d + 1). rewrite N.pow_add_r. rewrite <- I2. cbn. lia.
+                 --- reflexivity.
               ** unfold owned_tree, frame_blks. cbn [indexes data rsz elems opt_blk app].
                  rewrite elems_blks_move. eapply Lg_perm; [exact HL4|]. apply perm_swap.
               ** reflexivity.
@@ -2009,3 +2315,118 @@ Example cotree_iter_ctor_unwind_partial_hyp_sat : wf empty_heap.
 Proof. exact wf_empty. Qed.
 Example cotree_iter_ctor_fixed_hyp_sat : wf empty_heap.
 Proof. exact wf_empty. Qed.
+
+(* ========================================================================= *)
+(*  Decidable tree_inv (= the modelled part of structure_OK()) and the        *)
+(*  observable "is the receiver valid after operator=" used by the harness    *)
+(* ========================================================================= *)
+
+Definition opt_nat_eqb (a b : option nat) : bool :=
+  match a, b with
+  | Some x, Some y => Nat.eqb x y
+  | None, None => true
+  | _, _ => false
+  end.
+
+Lemma opt_nat_eqb_spec : forall a b, opt_nat_eqb a b = true <-> a = b.
+Proof.
+  intros [x|] [y|]; cbn; split; intros H; try discriminate H; try reflexivity.
+  - apply Nat.eqb_eq in H. subst; reflexivity.
+  - inversion H; subst. apply Nat.eqb_refl.
+Qed.
+
+Definition is_none {A} (o : option A) : bool := match o with None => true | Some _ => false end.
+Definition is_nil {A} (l : list A) : bool := match l with [] => true | _ => false end.
+
+Definition tree_valid_fields (t : tree) : bool :=
+  if N.eqb (rsz t) 0
+  then is_none (indexes t) && is_none (data t) && is_nil (elems t)
+  else negb (is_none (indexes t)) && negb (is_none (data t)).
+
+Definition tree_valid (t : tree) : bool :=
+  tree_valid_fields t
+  && N.eqb (rsz t + 1) (2 ^ N.log2 (rsz t + 1))
+  && opt_nat_eqb (fst (cend t)) (indexes t)
+  && N.eqb (snd (cend t)) (rsz t).
+
+Lemma tree_valid_fields_spec : forall t,
+  tree_valid_fields t = true <->
+  ((rsz t = 0 -> indexes t = None /\ data t = None /\ elems t = [])
+   /\ (rsz t <> 0 -> indexes t <> None /\ data t <> None)).
+Proof.
+  intros [i d r e c]. unfold tree_valid_fields. cbn [rsz indexes data elems].
+  destruct (N.eqb_spec r 0) as [E|E]; split.
+  - intros H. apply andb_true_iff in H. destruct H as [H He].
+    apply andb_true_iff in H. destruct H as [Hi Hd].
+    destruct i; [discriminate Hi|]. destruct d; [discriminate Hd|].
+    destruct e; [|discriminate He]. split; [auto | intros C; contradiction].
+  - intros [H _]. destruct (H E) as [-> [-> ->]]. reflexivity.
+  - intros H. apply andb_true_iff in H. destruct H as [Hi Hd].
+    destruct i; [|discriminate Hi]. destruct d; [|discriminate Hd].
+    split; [intros C; contradiction | intros _; split; discriminate].
+  - intros [_ H]. destruct (H E) as [Hi Hd].
+    destruct i; [|contradiction]. destruct d; [|contradiction]. reflexivity.
+Qed.
+
+Lemma pow2_check_spec : forall r,
+  N.eqb (r + 1) (2 ^ N.log2 (r + 1)) = true <-> exists d, r + 1 = 2 ^ d.
+Proof.
+  intros r. split.
+  - intros H. apply N.eqb_eq in H. exists (N.log2 (r + 1)). exact H.
+  - intros [d H]. rewrite H. rewrite N.log2_pow2 by apply N.le_0_l. apply N.eqb_refl.
+Qed.
+
+Theorem tree_valid_spec : forall t, tree_valid t = true <-> tree_inv t.
+Proof.
+  intros t. unfold tree_valid, tree_inv. rewrite !andb_true_iff.
+  rewrite tree_valid_fields_spec, pow2_check_spec, opt_nat_eqb_spec, N.eqb_eq.
+  destruct (cend t) as [ci cr]. cbn [fst snd]. split.
+  - intros [[[[A B] C] D] E]. subst. tauto.
+  - intros [A [B [C D]]]. inversion D; subst. tauto.
+Qed.
+
+(* validity of the receiver right after  *this = y  (both outcomes); to be
+   compared with OK() of the real object for each k *)
+Definition tr_assign_valid (rsz_this : N) (used_this : list (N * N))
+           (rsz_y : N) (used_y : list (N * N)) (k : N) : bool :=
+  match copy_ctor rsz_this (norm_used rsz_this used_this) tt empty_heap with
+  | Ret t _ h0 =>
+      match assign rsz_y (norm_used rsz_y used_y) t (start k h0) with
+      | Ret _ t' _ => tree_valid t'
+      | Exn t' _ => tree_valid t'
+      | Bad _ => false
+      end
+  | _ => false
+  end.
+
+(* the same with the fixed init: always true (cotree_assign_fixed_unwind_balanced) *)
+Definition tr_assign_fixed_valid (rsz_this : N) (used_this : list (N * N))
+           (rsz_y : N) (used_y : list (N * N)) (k : N) : bool :=
+  match copy_ctor rsz_this (norm_used rsz_this used_this) tt empty_heap with
+  | Ret t _ h0 =>
+      match assign_fixed rsz_y (norm_used rsz_y used_y) t (start k h0) with
+      | Ret _ t' _ => tree_valid t'
+      | Exn t' _ => tree_valid t'
+      | Bad _ => false
+      end
+  | _ => false
+  end.
+
+(* as written: invalid for k = 1, 2 (init throws), valid otherwise *)
+Example ex_tr_assign_valid :
+  map (tr_assign_valid 15 [(4,1);(6,1);(8,1);(10,1);(11,2);(12,1);(13,1);(14,1);(15,3)]
+                       7 [(2, 2); (4, 1); (6, 1); (7, 1)]) [0; 1; 2; 3; 4; 5; 6; 7] =
+  [true; false; false; true; true; true; true; true].
+Proof. vm_compute. reflexivity. Qed.
+
+Example ex_tr_assign_fixed_valid :
+  map (tr_assign_fixed_valid 15 [(4,1);(6,1);(8,1);(10,1);(11,2);(12,1);(13,1);(14,1);(15,3)]
+                             7 [(2, 2); (4, 1); (6, 1); (7, 1)]) [0; 1; 2; 3; 4; 5; 6; 7] =
+  [true; true; true; true; true; true; true; true].
+Proof. vm_compute. reflexivity. Qed.
+
+(* an EMPTY receiver stays valid even as written (its stale iterators are those
+   of the empty tree) *)
+Example ex_tr_assign_valid_empty_receiver :
+  map (tr_assign_valid 0 [] 7 [(2, 2)]) [1; 2; 3] = [true; true; true].
+Proof. vm_compute. reflexivity. Qed.
